@@ -252,6 +252,15 @@ func runCache(cfg Config) {
 						spec := TxnSpec{Mode: "w", Open: []int{0}, End: "commit", Ops: []OpSpec{{Op: "Get", Store: 0, K: 1},
 							{Op: "Update", Store: 0, K: 1, V: fmt.Sprintf("s%d.%d", i, vn)}}}
 						add(ws[j].do(workerCmd{Cmd: "txn", Label: fmt.Sprintf("t%d", st+1), Spec: &spec}))
+					case strings.HasPrefix(step, "op@"): // op@wJ:<Op>:<key> - one committed single-operation writer
+						parts := strings.Split(step, ":")
+						if len(parts) == 3 {
+							var k int
+							fmt.Sscanf(parts[2], "%d", &k)
+							vn++
+							spec := TxnSpec{Mode: "w", Open: []int{0}, End: "commit", Ops: []OpSpec{{Op: parts[1], Store: 0, K: k, V: fmt.Sprintf("s%d.%d", i, vn)}}}
+							add(ws[j].do(workerCmd{Cmd: "txn", Label: fmt.Sprintf("t%d", st+1), Spec: &spec}))
+						}
 					case strings.HasPrefix(step, "observe@"):
 						add(ws[j].do(workerCmd{Cmd: "observe"}))
 					case step == "flushall" && srv != nil:
